@@ -257,6 +257,25 @@ func (s *Syncer[H]) findTailHeight(ctx context.Context, oldTail, head H) (uint64
 	)
 
 	newTailHeight := estimatedTailHeight
+	for newTailHeight > oldTail.Height() && newTailHeight <= s.store.Height() {
+		// the estimate counts one header per blockTime, which is the upper bound of the block time:
+		// with faster blocks it lies above the first header of the window, so walk down to it
+		prev, err := s.store.GetByHeight(ctx, newTailHeight-1)
+		if err != nil {
+			return 0, fmt.Errorf(
+				"getting header below estimated new tail(%d) from store: %w",
+				estimatedTailHeight,
+				err,
+			)
+		}
+
+		if expectedTailTime.Compare(prev.Time().UTC()) > 0 {
+			break
+		}
+
+		newTailHeight--
+	}
+
 	for newTailHeight > oldTail.Height() && newTailHeight < s.store.Height() {
 		// store keeps all the headers up to the current head
 		// iterate over the headers and find the most accurate tail
